@@ -183,8 +183,41 @@ fn steer_value_len(tkl: usize, number: usize, payload: usize, target: usize) -> 
     (0..=target).find(|&len| fixed + option_size(number, len) == target)
 }
 
+/// The boundary slice that is run under Miri (uninitialised-byte clause): ~200 messages around every
+/// extension threshold and around MAX_SIZE, each through the limited, default and unlimited encoders.
+fn miri_slice(ctx: &Ctx, rep: &mut Report) {
+    let max = Packet::MAX_SIZE;
+    let mut msgs: Vec<RefMsg> = Vec::new();
+    for tkl in [0usize, 8] {
+        for (num, len) in [(0u32, 0usize), (12, 12), (13, 13), (268, 268), (269, 269), (270, 300), (65535, 1)] {
+            for pl in [0usize, 1, 17] {
+                msgs.push(RefMsg { version: 1, mtype: 0, token: pattern(tkl, 1), code: 1, mid: 3, options: vec![(num, pattern(len, 2))], payload: pattern(pl, 3) });
+            }
+        }
+        msgs.push(RefMsg { version: 1, mtype: 0, token: pattern(tkl, 1), code: 0, mid: 3, options: vec![], payload: pattern(9, 3) });
+        msgs.push(RefMsg { version: 1, mtype: 0, token: pattern(tkl, 1), code: 1, mid: 3, options: vec![(1, vec![]), (1, pattern(13, 1)), (14, pattern(269, 1))], payload: vec![] });
+        for d in 0..5usize {
+            let target = max - 2 + d;
+            let fixed = 4 + tkl + 1;
+            msgs.push(RefMsg { version: 1, mtype: 1, token: pattern(tkl, 7), code: 0x45, mid: 10, options: vec![], payload: pattern(target - fixed, 6) });
+            if let Some(len) = steer_value_len(tkl, 13, 0, target) {
+                msgs.push(RefMsg { version: 1, mtype: 1, token: pattern(tkl, 7), code: 0x45, mid: 10, options: vec![(13, pattern(len, 6))], payload: vec![] });
+            }
+        }
+    }
+    let n = msgs.len() as u64;
+    ctx.family(rep, "miri-boundary-slice", "boundary slice: every extension threshold of delta and length, token 0/8, payload 0/1/17, 0.00 with payload, totals at MAX_SIZE-2..+2 via payload and via option value", n, true, |i, rep| {
+        limit_oracle("miri-boundary-slice", i, n, &msgs[i as usize], ctx, rep);
+    });
+}
+
 pub fn run(ctx: &Ctx, rep: &mut Report) {
     let max = Packet::MAX_SIZE;
+    if ctx.config == "miri" {
+        miri_slice(ctx, rep);
+        rep.assume("this configuration ran the boundary slice under Miri (interpreter): any read of uninitialised memory or out-of-bounds access in the serialiser aborts the run and is reported by the runner");
+        return;
+    }
     // F1: payload sweep
     {
         let top: u64 = if max > 2000 { 1401 } else { 1401 };
@@ -330,6 +363,39 @@ pub fn run(ctx: &Ctx, rep: &mut Report) {
                     payload: if d[4] == 1 { vec![1, 2, 3] } else { vec![] },
                 };
                 limit_oracle("F4-option-pairs", i, n, &m, ctx, rep);
+            },
+        );
+    }
+    // F5: many option instances (the per-option header bytes dominate): k values x length x number layout
+    {
+        let lens = [0usize, 3, 12, 13, 100, 268, 269, 300];
+        let radices = [10u64, lens.len() as u64, 5, 2];
+        let n = product(&radices);
+        ctx.family(
+            rep,
+            "F5-many-option-instances",
+            "1..=10 option instances x value length {0,3,12,13,100,268,269,300} x number layout {all the same number, consecutive numbers, every 13th, every 269th, two numbers alternating} x payload {none, 2 bytes}: buffers sized by option *instances* and their extension bytes",
+            n,
+            true,
+            |i, rep| {
+                let d = decode(i, &radices);
+                let k = d[0] as usize + 1;
+                let len = lens[d[1] as usize];
+                let mut opts: Vec<(u32, Vec<u8>)> = (0..k)
+                    .map(|j| {
+                        let num = match d[2] {
+                            0 => 11,
+                            1 => 1 + j as u32,
+                            2 => 13 * (j as u32 + 1),
+                            3 => 269 * (j as u32 + 1),
+                            _ => if j % 2 == 0 { 8 } else { 20 },
+                        };
+                        (num, pattern(len, j as u8))
+                    })
+                    .collect();
+                opts.sort_by_key(|o| o.0);
+                let m = RefMsg { version: 1, mtype: 0, token: vec![1, 2], code: 0x02, mid: 13, options: opts, payload: if d[3] == 1 { vec![9, 9] } else { vec![] } };
+                limit_oracle("F5-many-option-instances", i, n, &m, ctx, rep);
             },
         );
     }
